@@ -64,11 +64,11 @@ theorem canon_userinfo (puny : Str → Str) (quoted sf : Bool) (p : Parsed) :
   · simp only [canonComps, canonOpt, optPct]
     cases p.username with
     | none => rfl
-    | some u => by_cases h : u.isEmpty <;> simp [h, unquoteAuthItem, pct_requote quoted _ hU]
+    | some u => by_cases h : u.isEmpty <;> simp [h, pct_requote_auth quoted]
   · simp only [canonComps, canonOpt, optPct]
     cases p.password with
     | none => rfl
-    | some u => by_cases h : u.isEmpty <;> simp [h, unquoteAuthItem, pct_requote quoted _ hU]
+    | some u => by_cases h : u.isEmpty <;> simp [h, pct_requote_auth quoted]
 
 /-- host: the canonical host is the host "up to letter case and IDNA spelling": it is
 `canonHost` of the input host, and `canonHost` of itself (so input and output have the same
@@ -431,8 +431,8 @@ theorem canon_no_new_delimiter :
     (∀ (d : Char) (s : Str), d ∈ ['?', '#'] → d ∉ s → d ∉ unquotePath s) ∧
     (∀ (d : Char) (s : Str), d ∈ ['&', '=', '#'] → d ∉ s → d ∉ unquoteQueryItem s) := by
   refine ⟨?_, ?_, ?_⟩ <;> intro d s hd hs <;> simp only [List.mem_cons, List.not_mem_nil, or_false] at hd
-  · rcases hd with rfl | rfl | rfl | rfl | rfl <;>
-      exact not_mem_safelyUnquote _ ⟨by decide, by decide⟩ (by decide) (by decide) s hs
+  · exact not_mem_authItem (by
+      rcases hd with rfl | rfl | rfl | rfl | rfl <;> simp) s hs
   · rcases hd with rfl | rfl <;>
       exact not_mem_safelyUnquote _ ⟨by decide, by decide⟩ (by decide) (by decide) s hs
   · rcases hd with rfl | rfl | rfl <;>
